@@ -123,15 +123,21 @@ class Matrix3(Matrix):
                 drank = len(denom)
                 deriv = np.zeros(unit1._shape_ + (3,3) + denom)
 
+                # A derivative is masked wherever one of its rows is
+                dmask = result._mask_
+
                 suffix = (drank + 1) * (slice(None),)
                 if key in unit1._derivs_:
                     deriv[(Ellipsis,axis1)+suffix] = unit1._derivs_[key]._values_
+                    dmask = Qube.or_(dmask, unit1._derivs_[key]._mask_)
                 if key in unit2._derivs_:
                     deriv[(Ellipsis,axis2)+suffix] = unit2._derivs_[key]._values_
+                    dmask = Qube.or_(dmask, unit2._derivs_[key]._mask_)
                 if key in unit3._derivs_:
                     deriv[(Ellipsis,axis3)+suffix] = unit3._derivs_[key]._values_
+                    dmask = Qube.or_(dmask, unit3._derivs_[key]._mask_)
 
-                derivs[key] = Matrix3(deriv, mask=result._mask_, drank=drank)
+                derivs[key] = Matrix3(deriv, mask=dmask, drank=drank)
 
             result.insert_derivs(derivs)
 
